@@ -2,7 +2,10 @@
 Correspondence: every process's txn.*/init.* events are replayed through the Lean acceptor SqlTxn.step
 (per connection); a write inside a DEFERRED transaction is the only place the model allows SQLITE_BUSY.
 Implementation monitors: k simultaneous invocations of a mix of commands; none may fail with a database /
-lock error; integrity_check; dependency rows of every built target present."""
+lock error; integrity_check; dependency rows of every built target present.  Directed families: commands that do
+not start together — a complete second command (after an edit) during a long first one that has already looked at the
+same targets (during_command_family), and a second request for a target whose out-of-band check (redo-unlocked) is
+under way (oob_family)."""
 import random, sqlite3
 from common import *
 from proj import Project
@@ -168,6 +171,223 @@ def vanished_target_queries(viol, stats):
         pr.destroy()
 
 
+HOLD = 'n=0; while [ -e %s ] && [ $n -lt 600 ]; do sleep 0.05; n=$((n+1)); done\n'
+
+
+def _start(pr, argv, trace=None):
+    import subprocess
+    from proj import clean_env
+    env = clean_env({"REDO_VERIF_TRACE": pr.path(trace)} if trace else None)
+    return subprocess.Popen(argv, cwd=pr.root, env=env, stdout=subprocess.PIPE, stderr=subprocess.PIPE, stdin=subprocess.DEVNULL, start_new_session=True)
+
+
+def _finish(p, timeout):
+    """(rc, stderr) of a started command; -999 when it had to be killed."""
+    import signal, subprocess
+    try:
+        out, err = p.communicate(timeout=timeout)
+        rc = p.returncode
+    except subprocess.TimeoutExpired:
+        try:
+            os.killpg(p.pid, signal.SIGKILL)
+        except ProcessLookupError:
+            pass
+        out, err = p.communicate()
+        rc = -999
+    try:
+        os.killpg(p.pid, signal.SIGKILL)
+    except (ProcessLookupError, PermissionError):
+        pass
+    return rc, err.decode("utf-8", "replace")
+
+
+def _wait_file(pr, rel, p, secs):
+    import time
+    t0 = time.time()
+    while time.time() - t0 < secs:
+        if pr.read(rel):
+            return True
+        if p.poll() is not None:
+            return bool(pr.read(rel))
+        time.sleep(0.02)
+    return False
+
+
+def command_during_command(cmd1, cmd2):
+    """A long first command, and during it an edit and a complete second command that rebuilds what the first one has
+    already looked at:  dsrc -> D -> P,  qsrc -> Q (its script waits),  P, Q -> all.  Everything is built, qsrc is edited;
+    cmd1 (which asks for P and Q, directly or through all) finds P and D up to date and is then busy with Q; meanwhile
+    dsrc is edited and cmd2 rebuilds D (and P); then Q is let go and cmd1 ends — after cmd2.  Monitor (the records
+    written by each command are all present afterwards): both exit 0; what cmd2 built is there; a final redo-ifchange all
+    exits 0 without taking anything redo built for a hand-edited file, gives the from-scratch contents, every target is
+    listed by redo-targets and not by redo-sources, redo-ood is empty; a later edit of dsrc reaches P and all.
+    Returns (problems, info); problems empty also when the interleaving could not be set up."""
+    pr = Project()
+    try:
+        pr.write("D.do", "redo-ifchange dsrc\ncat dsrc\n")
+        pr.write("P.do", 'redo-ifchange D\necho "P from $(cat D)"\n')
+        pr.write("Q.do", "redo-ifchange qsrc\necho x >q.started\n" + HOLD % "hold" + "cat qsrc\n")
+        pr.write("all.do", "redo-ifchange P Q\ncat P Q\n")
+        pr.write("dsrc", "d1\n")
+        pr.write("qsrc", "q1\n")
+        info = dict(cmd1=cmd1, cmd2=cmd2)
+        rc, o, e = pr.run(["redo-ifchange", "all"], timeout=90)
+        if rc != 0 or pr.read("all") != b"P from d1\nq1\n":
+            return ["setup build failed (exit %d)" % rc], dict(info, stderr=e[-600:])
+        pr.write("qsrc", "q2\n")
+        pr.rm("q.started")
+        pr.write("hold", "")
+        p1 = _start(pr, cmd1)
+        reached = _wait_file(pr, "q.started", p1, 60)
+        pr.write("dsrc", "d2\n")
+        rc2, e2 = _finish(_start(pr, cmd2), 60)
+        still_running = p1.poll() is None
+        pr.rm("hold")
+        rc1, e1 = _finish(p1, 90)
+        info.update(rc1=rc1, rc2=rc2, interleaving_reached=bool(reached and still_running), stderr1=e1[-500:], stderr2=e2[-500:])
+        problems = []
+        for c, rc, e in ((cmd1, rc1, e1), (cmd2, rc2, e2)):
+            if rc != 0:
+                problems.append("`%s` exited %d although every script succeeds (%s)" % (" ".join(c), rc, e.strip().splitlines()[-1][:120] if e.strip() else ""))
+            if "you modified it" in e:
+                problems.append("`%s` took a target redo built for a hand-edited file: %s" % (" ".join(c), [l for l in e.splitlines() if "you modified it" in l][0][:100]))
+        if not problems and pr.read("D") != b"d2\n":
+            problems.append("after `%s` D holds %r, expected b'd2\\n'" % (" ".join(cmd2), pr.read("D")))
+        if not problems and cmd2[-1] == "P" and pr.read("P") != b"P from d2\n":
+            problems.append("after `%s` P holds %r, expected b'P from d2\\n'" % (" ".join(cmd2), pr.read("P")))
+        if not problems:
+            rc3, o3, e3 = pr.run(["redo-ifchange", "all"], timeout=90)
+            if rc3 != 0 or "you modified it" in e3:
+                problems.append("a following `redo-ifchange all` exits %d%s" % (rc3, ": " + [l for l in e3.splitlines() if "you modified it" in l][0][:100] if "you modified it" in e3 else ""))
+            got = dict((n, pr.read(n)) for n in ("D", "P", "Q", "all"))
+            want = dict(D=b"d2\n", P=b"P from d2\n", Q=b"q2\n", all=b"P from d2\nq2\n")
+            if got != want:
+                problems.append("after a following `redo-ifchange all`: %s, from scratch: %s" % (", ".join("%s=%r" % (n, got[n]) for n in sorted(got) if got[n] != want[n]), ", ".join("%s=%r" % (n, want[n]) for n in sorted(got) if got[n] != want[n])))
+            tg = set(pr.run(["redo-targets"])[1].split())
+            so = set(pr.run(["redo-sources"])[1].split())
+            oo = set(pr.run(["redo-ood"])[1].split())
+            lost = sorted({"D", "P", "Q", "all"} - tg)
+            if lost or ({"D", "P", "Q", "all"} & so) or oo:
+                problems.append("records lost: not listed by redo-targets %s, listed by redo-sources %s, out of date right after redo-ifchange all %s" % (lost, sorted({"D", "P", "Q", "all"} & so), sorted(oo)))
+            pr.write("dsrc", "d3\n")
+            rc4, o4, e4 = pr.run(["redo-ifchange", "all"], timeout=90)
+            if rc4 != 0 or pr.read("P") != b"P from d3\n" or pr.read("all") != b"P from d3\nq2\n":
+                problems.append("after a later edit of dsrc, redo-ifchange all (exit %d) leaves P=%r all=%r%s" % (rc4, pr.read("P"), pr.read("all"), " (%s)" % [l for l in e4.splitlines() if "you modified it" in l][0][:80] if "you modified it" in e4 else ""))
+        return problems, info
+    finally:
+        pr.destroy()
+
+
+def during_command_family(viol, stats):
+    from concurrent.futures import ThreadPoolExecutor
+    cases = [(c1, c2) for c1 in (["redo-ifchange", "P", "Q"], ["redo-ifchange", "all"], ["redo", "all"])
+             for c2 in (["redo-ifchange", "P"], ["redo", "P"], ["redo", "D"], ["redo-ifchange", "D"])]
+    with ThreadPoolExecutor(max_workers=6) as ex:
+        res = list(ex.map(lambda c: command_during_command(*c), cases))
+    stats["rounds"] += len(cases)
+    stats["commands"] += 2 * len(cases)
+    stats["during_command"] = dict(cases=len(cases), interleaving_reached=sum(1 for _, i in res if i.get("interleaving_reached")))
+    for problems, info in res:
+        if problems:
+            p = write_replay("C16", "during-command", dict(kind="impl-monitor", info=info, problems=problems,
+                             scenario="dsrc -> D -> P, qsrc -> Q (Q.do waits while the file hold exists), P, Q -> all.  redo-ifchange all; edit qsrc; start cmd1; when Q.do runs: edit dsrc, run cmd2 to its end; rm hold; wait for cmd1; redo-ifchange all; redo-targets/-sources/-ood; edit dsrc; redo-ifchange all"))
+            viol.append(Violation("C16", p, "`%s` while `%s` is busy elsewhere (started before, ends later): %s" % (" ".join(info["cmd2"]), " ".join(info["cmd1"]), "; ".join(problems[:3]))))
+            return
+
+
+def second_request_during_oob(cmd1, cmd2):
+    """The out-of-band path beside a second request:  ssrc -> S (redo-stamp) -> T -> top.  After an edit of ssrc, whether T
+    must be rebuilt is known only after S has been rebuilt: the command keeps T's (resp. top's) lock and lets
+    `redo-unlocked` rebuild S and then the target.  While S.do runs, cmd2 asks for the same target.  Monitor: both exit 0
+    (every script succeeds), T.do and top.do each ran at most once per command and never two at a time, the contents are
+    the from-scratch ones, nothing out of date, S T top known targets.  Returns (problems, info)."""
+    import time
+    pr = Project()
+    try:
+        pr.write("S.do", "redo-ifchange ssrc\necho x >s.started\n" + HOLD % "hold" + "cat ssrc\nredo-stamp <ssrc\n")
+        for n, d in (("T", "S"), ("top", "T")):
+            pr.write(n + ".do", 'redo-ifchange %s\necho "B $$" >>%s.runs\necho "%s from $(cat %s)" >"$3"\nsleep 0.5\necho "E $$" >>%s.runs\n' % (d, n, n, d, n))
+        pr.write("ssrc", "s1\n")
+        info = dict(cmd1=cmd1, cmd2=cmd2)
+        rc, o, e = pr.run(["redo-ifchange", "top"], timeout=90)
+        if rc != 0 or pr.read("top") != b"top from T from s1\n":
+            return ["setup build failed (exit %d)" % rc], dict(info, stderr=e[-600:])
+        pr.write("ssrc", "s2\n")
+        for f in ("s.started", "T.runs", "top.runs"):
+            pr.rm(f)
+        pr.write("hold", "")
+        p1 = _start(pr, cmd1, trace=".verif-trace1")
+        reached = _wait_file(pr, "s.started", p1, 60)
+        p2 = _start(pr, cmd2, trace=".verif-trace2")
+        # cmd2 has arrived when it waits for a lock, or has started an out-of-band check or a script of its own
+        t0, arrived = time.time(), False
+        while time.time() - t0 < 20 and p2.poll() is None:
+            tr = (pr.read(".verif-trace2") or b"").decode("utf-8", "replace")
+            if re.search(r" (lock\.wait\.begin|job\.oob|job\.script) ", tr):
+                arrived = True
+                break
+            time.sleep(0.05)
+        time.sleep(0.4)
+        both = p1.poll() is None and p2.poll() is None
+        pr.rm("hold")
+        rc1, e1 = _finish(p1, 90)
+        rc2, e2 = _finish(p2, 90)
+        oob = " job.oob " in (pr.read(".verif-trace1") or b"").decode("utf-8", "replace")
+        info.update(rc1=rc1, rc2=rc2, interleaving_reached=bool(reached and arrived and both), out_of_band_check_by_cmd1=oob, stderr1=e1[-600:], stderr2=e2[-600:])
+        problems = []
+        for c, rc, e in ((cmd1, rc1, e1), (cmd2, rc2, e2)):
+            if rc != 0:
+                errs = [l for l in e.splitlines() if "modified" in l] or [l for l in e.splitlines() if l.startswith("redo:")]
+                problems.append("`%s` exited %d although every script succeeds (%s)" % (" ".join(c), rc, (errs[0] if errs else (e.strip().splitlines() or [""])[-1])[:140]))
+        for n in ("T", "top"):
+            runs = [l.split() for l in (pr.read(n + ".runs") or b"").decode().splitlines()]
+            info[n + "_runs"] = runs
+            open_, overlap = set(), False
+            for r in runs:
+                if len(r) == 2 and r[0] == "B":
+                    overlap = overlap or bool(open_)
+                    open_.add(r[1])
+                elif len(r) == 2:
+                    open_.discard(r[1])
+            nb = sum(1 for r in runs if r and r[0] == "B")
+            if overlap:
+                problems.append("two executions of %s.do at the same time (%s)" % (n, " ".join("".join(r) for r in runs)))
+            elif nb > 2:
+                problems.append("%s.do ran %d times for two commands" % (n, nb))
+        if not problems:
+            rc3, o3, e3 = pr.run(["redo-ifchange", "top"], timeout=90)
+            if rc3 != 0 or "you modified it" in e3:
+                problems.append("a following `redo-ifchange top` exits %d%s" % (rc3, " and takes a target redo built for a hand-edited file" if "you modified it" in e3 else ""))
+            if pr.read("T") != b"T from s2\n" or pr.read("top") != b"top from T from s2\n":
+                problems.append("afterwards T=%r top=%r, from scratch: 'T from s2', 'top from T from s2'" % (pr.read("T"), pr.read("top")))
+            tg = set(pr.run(["redo-targets"])[1].split())
+            oo = set(pr.run(["redo-ood"])[1].split())
+            if not {"S", "T", "top"} <= tg or oo:
+                problems.append("records lost: redo-targets %s, out of date right after redo-ifchange top %s" % (sorted(tg), sorted(oo)))
+        return problems, info
+    finally:
+        pr.destroy()
+
+
+def oob_family(viol, stats):
+    from concurrent.futures import ThreadPoolExecutor
+    cases = [(["redo-ifchange", "T"], ["redo-ifchange", "T"]), (["redo-ifchange", "T"], ["redo", "T"]),
+             (["redo-ifchange", "top"], ["redo-ifchange", "top"]), (["redo-ifchange", "top"], ["redo-ifchange", "T"]),
+             (["redo-ifchange", "T"], ["redo-ifchange", "top"])]
+    with ThreadPoolExecutor(max_workers=5) as ex:
+        res = list(ex.map(lambda c: second_request_during_oob(*c), cases))
+    stats["rounds"] += len(cases)
+    stats["commands"] += 2 * len(cases)
+    stats["oob_second_request"] = dict(cases=len(cases), interleaving_reached=sum(1 for _, i in res if i.get("interleaving_reached")),
+                                       out_of_band=sum(1 for _, i in res if i.get("out_of_band_check_by_cmd1")))
+    for problems, info in res:
+        if problems:
+            p = write_replay("C16", "oob-second-request", dict(kind="impl-monitor", info=info, problems=problems,
+                             scenario="ssrc -> S (S.do: redo-ifchange ssrc; wait while the file hold exists; cat ssrc; redo-stamp <ssrc) -> T -> top (scripts record B/E in T.runs, top.runs and take 0.4 s).  redo-ifchange top; edit ssrc; start cmd1; when S.do runs start cmd2; when cmd2 waits (or has started work): rm hold; wait for both"))
+            viol.append(Violation("C16", p, "`%s` beside `%s` whose out-of-band check (redo-unlocked) is rebuilding S: %s" % (" ".join(info["cmd2"]), " ".join(info["cmd1"]), "; ".join(problems[:3]))))
+            return
+
+
 def run(ctx):
     rng = random.Random(ctx["seed"] * 13 + 16)
     viol = ctx.setdefault("violations", [])
@@ -184,6 +404,10 @@ def run(ctx):
         same_target_twice(viol, stats)
     if not viol:
         vanished_target_queries(viol, stats)
+    if not viol:
+        during_command_family(viol, stats)
+    if not viol:
+        oob_family(viol, stats)
     for rnd in range(rounds if not viol else 0):
         pr = Project()
         try:
@@ -218,6 +442,13 @@ def run(ctx):
             ans = run_lines(MODEL, reqs) if reqs else []
             stats["processes"] += len(per)
             stats["txns"] += sum(1 for ev in per.values() for e in ev if e[:2] in ("bd", "bi"))
+            # no lost update: a copy of a Files row is saved only inside the transaction that loaded it (RowCache acceptor)
+            nsaves, stale = sched.replay_rows(trace)
+            stats["row_saves"] = stats.get("row_saves", 0) + nsaves
+            if stale:
+                p = write_replay("C16", "stale-copy-%d" % rnd, dict(kind="trace-rejected-by-model", acceptor="RowCache.step (RedoModel/RowCache.lean)", scenario=dict(commands=cmds), pid=stale[0][0], answer=stale[0][1], events=stale[0][2]))
+                viol.append(Violation("C16", p, "a process saves a copy of a Files row outside the transaction that loaded it (%s): columns written by another command in between are overwritten" % stale[0][1]))
+                break
             scen = dict(commands=cmds, fresh_project=fresh, graph={n: v["deps"] for n, v in g.items()})
             for (pid, ev), a in zip(per.items(), ans):
                 if a.startswith("reject"):
@@ -290,5 +521,5 @@ def run(ctx):
         finally:
             pr.destroy()
     return dict(evaluations=stats["txns"], distinct_nontrivial=stats["commands"],
-                rule="rounds of 2-8 simultaneously started commands (redo -j2, redo-ifchange, redo-ood/targets/sources, redo-log) on generated projects, 40% on a fresh directory (first commands create .redo); every process's transaction events replayed by the Lean acceptor; distinct = commands",
+                rule="rounds of 2-8 simultaneously started commands (redo -j2, redo-ifchange, redo-ood/targets/sources, redo-log) on generated projects, 40% on a fresh directory (first commands create .redo); every process's transaction events replayed by the Lean acceptor; 12 pairs (long first command, edit + second command during it) and 5 pairs (out-of-band check, second request for the target) with exit-status / records / contents monitors; distinct = commands",
                 samples=samples, traces_validated_against_impl=stats["processes"], disagreements_checked=stats["txns"], distribution=stats, known_hit=known_hit)
